@@ -1,5 +1,5 @@
 //@include prelude/header.rs
-use rustpython_parser::ast::{Expr, Stmt, Keyword, Identifier, Constant, ExceptHandler, ExprCall};
+use rustpython_parser::ast::{Expr, Stmt, Keyword, Identifier, Constant, ExceptHandler, ExprCall, Alias};
 use rustpython_parser::text_size::TextRange;
 verus! {
 pub mod pre {
@@ -7,6 +7,8 @@ use super::*;
 //@include build/astspec.rs
 //@include prelude/path.rs
 //@include prelude/types.rs
+//@include prelude/dashmap.rs
+//@include prelude/hashset.rs
 //@include prelude/hof.rs
 //@include prelude/strings.rs
 //@include prelude/iter_ext.rs
@@ -519,6 +521,49 @@ pub open spec fn spec_return_type(returns: Option<Box<Expr>>, body: Seq<Stmt>, c
     }
 }
 
+
+// ---- module-level names (what an import / def / class / assignment binds) -------------------------------------
+pub open spec fn alias_bound(a: Alias) -> Seq<char> { match a.asname { Some(n) => idv(&n), None => idv(&a.name) } }
+pub open spec fn aliases_from(s: Seq<Alias>, k: int) -> Set<Seq<char>>
+    decreases s.len() - k
+{
+    if k < 0 || k >= s.len() { Set::empty() } else { aliases_from(s, k + 1).insert(alias_bound(s[k])) }
+}
+/// assignment targets: a Name, or (recursively) the elements of a tuple / list target; nothing else
+/// (attributes `a.b = ..`, subscripts `a[0] = ..`, starred `*rest` bind no module-level name here)
+pub open spec fn target_names(e: Expr) -> Set<Seq<char>>
+    decreases e, 0int
+{
+    match e {
+        Expr::Name(n) => Set::empty().insert(idv(&n.id)),
+        Expr::Tuple(t) => targets_from(t.elts@, 0),
+        Expr::List(l) => targets_from(l.elts@, 0),
+        _ => Set::empty(),
+    }
+}
+pub open spec fn targets_from(es: Seq<Expr>, k: int) -> Set<Seq<char>>
+    decreases es, es.len() - k
+{
+    if k < 0 || k >= es.len() { Set::empty() } else { target_names(es[k]).union(targets_from(es, k + 1)) }
+}
+pub open spec fn has_fixture_decorator(ds: Seq<Expr>) -> bool {
+    exists|i: int| 0 <= i < ds.len() && spec_is_fixture_decorator(&#[trigger] ds[i])
+}
+/// the names a module-level statement binds: imports (asname, else name), functions that are NOT fixtures,
+/// classes, assignment / annotated-assignment targets
+pub open spec fn module_level_names(s: Stmt) -> Set<Seq<char>> {
+    match s {
+        Stmt::Import(x) => aliases_from(x.names@, 0),
+        Stmt::ImportFrom(x) => aliases_from(x.names@, 0),
+        Stmt::FunctionDef(f) => if has_fixture_decorator(f.decorator_list@) { Set::empty() } else { Set::empty().insert(idv(&f.name)) },
+        Stmt::AsyncFunctionDef(f) => if has_fixture_decorator(f.decorator_list@) { Set::empty() } else { Set::empty().insert(idv(&f.name)) },
+        Stmt::ClassDef(c) => Set::empty().insert(idv(&c.name)),
+        Stmt::Assign(a) => targets_from(a.targets@, 0),
+        Stmt::AnnAssign(a) => target_names(*a.target),
+        _ => Set::empty(),
+    }
+}
+
 // no field of the database is read by these methods (a field access would not compile: UNDECIDED)
 pub struct FixtureDatabase {}
 
@@ -534,7 +579,7 @@ pub mod string_utils {
 
 pub mod fixtures {
 use super::*;
-broadcast use axiom_string_to_string;
+broadcast use {axiom_string_to_string, axiom_identifier_to_string};
 impl FixtureDatabase {
     /// callee stub: the printer of annotation expressions (docstring.rs expr_to_string), result left abstract
     #[verifier::external_body]
@@ -754,6 +799,74 @@ impl FixtureDatabase {
     proof { let i = it2.index@ as int; assert(try_stmt.handlers@[i] == ExceptHandler::ExceptHandler(*h));
         assert(cy_handlers(try_stmt.handlers@, i) == (cy_from(h.body@, 0) || cy_handlers(try_stmt.handlers@, i + 1)));
         assert(decreases_to!(try_stmt.handlers => try_stmt.handlers@[i])); }
+@*/
+
+/*@ extract src/fixtures/analyzer.rs collect_names_from_expr
+@tags C03 C12
+@sig
+    ensures final(names).s() =~= old(names).s().union(target_names(*expr)),
+    decreases expr,
+@start
+    let ghost n0 = names.s();
+@loopvar 1 it1
+@loop 1
+    invariant it1.seq() == tuple.elts@.as_ref(), *expr == Expr::Tuple(*tuple),
+        names.s().union(targets_from(tuple.elts@, it1.index@ as int)) =~= n0.union(targets_from(tuple.elts@, 0)),
+@loopstart 1
+    proof { let i = it1.index@ as int; assert(*elt == tuple.elts@[i]); assert(decreases_to!(tuple.elts => tuple.elts@[i]));
+        assert(targets_from(tuple.elts@, i) == target_names(*elt).union(targets_from(tuple.elts@, i + 1))); }
+@loopvar 2 it2
+@loop 2
+    invariant it2.seq() == list.elts@.as_ref(), *expr == Expr::List(*list),
+        names.s().union(targets_from(list.elts@, it2.index@ as int)) =~= n0.union(targets_from(list.elts@, 0)),
+@loopstart 2
+    proof { let i = it2.index@ as int; assert(*elt == list.elts@[i]); assert(decreases_to!(list.elts => list.elts@[i]));
+        assert(targets_from(list.elts@, i) == target_names(*elt).union(targets_from(list.elts@, i + 1))); }
+@*/
+
+/*@ extract src/fixtures/analyzer.rs collect_module_level_names
+@tags C03
+@sig
+    ensures final(names).s() =~= old(names).s().union(module_level_names(*stmt)),
+@start
+    let ghost n0 = names.s();
+@loopvar 1 it1
+@loop 1
+    invariant it1.seq() == import_stmt.names@.as_ref(),
+        names.s().union(aliases_from(import_stmt.names@, it1.index@ as int)) =~= n0.union(aliases_from(import_stmt.names@, 0)),
+@loopstart 1
+    proof { let i = it1.index@ as int; assert(*alias == import_stmt.names@[i]);
+        assert(aliases_from(import_stmt.names@, i) == aliases_from(import_stmt.names@, i + 1).insert(alias_bound(*alias))); }
+@loopvar 2 it2
+@loop 2
+    invariant it2.seq() == import_from.names@.as_ref(),
+        names.s().union(aliases_from(import_from.names@, it2.index@ as int)) =~= n0.union(aliases_from(import_from.names@, 0)),
+@loopstart 2
+    proof { let i = it2.index@ as int; assert(*alias == import_from.names@[i]);
+        assert(aliases_from(import_from.names@, i) == aliases_from(import_from.names@, i + 1).insert(alias_bound(*alias))); }
+@after is_fixture 1
+    proof {
+        let ds = func_def.decorator_list@;
+        if !is_fixture {
+            assert forall|i: int| 0 <= i < ds.len() implies !spec_is_fixture_decorator(&#[trigger] ds[i]) by { let y = ds.as_ref()[i]; }
+        }
+        assert(is_fixture == has_fixture_decorator(ds));
+    }
+@after is_fixture 3
+    proof {
+        let ds = func_def.decorator_list@;
+        if !is_fixture {
+            assert forall|i: int| 0 <= i < ds.len() implies !spec_is_fixture_decorator(&#[trigger] ds[i]) by { let y = ds.as_ref()[i]; }
+        }
+        assert(is_fixture == has_fixture_decorator(ds));
+    }
+@loopvar 3 it3
+@loop 3
+    invariant it3.seq() == assign.targets@.as_ref(),
+        names.s().union(targets_from(assign.targets@, it3.index@ as int)) =~= n0.union(targets_from(assign.targets@, 0)),
+@loopstart 3
+    proof { let i = it3.index@ as int; assert(*target == assign.targets@[i]);
+        assert(targets_from(assign.targets@, i) == target_names(*target).union(targets_from(assign.targets@, i + 1))); }
 @*/
 } // impl FixtureDatabase
 } // mod fixtures
